@@ -348,6 +348,69 @@ func arithmetic(maxOps int) *core.Family {
 	}
 }
 
+// long literals: single tokens far longer than the tokenizer's 1024-byte buffer (strings,
+// entity ids, annotation values, pattern literals, quoted keys and attribute names).
+func longLiterals() *core.Family {
+	lens := []int{1000, 1023, 1024, 1025, 2047, 2048, 2049, 3000, 5000, 9000}
+	units := []string{"a", "é", "a\"\\\n"}
+	return &core.Family{
+		Name: "long-literals",
+		Desc: fmt.Sprintf("string values, entity ids, annotation values, like-pattern literals, record keys and attribute names of %v characters (ASCII, 2-byte characters, characters that need escapes): one token spans up to nine refills of the tokenizer buffer", lens),
+		N:    int64(len(lens) * len(units)),
+		Run: func(t *core.T, i int64) {
+			n := lens[int(i)/len(units)]
+			u := units[int(i)%len(units)]
+			long := strings.Repeat(u, n/len([]rune(u)))
+			e := SetLit(
+				L(Str(long)), L(Entity("U", long)), Like(L(Str(long)), PatElem{Lit: long}, PatElem{Wild: true}),
+				RecLit([]string{long}, []*Expr{L(Long(1))}), Has(Var("context"), long), Access(RecLit([]string{long}, []*Expr{L(Long(1))}), long), L(Rec(KV{K: long, V: Str(long)})),
+			)
+			checkExpr(t, "long-literal", e, true)
+			p := cedar.NewPolicyFromAST((*publicast.Policy)(xast.Permit().Annotate("a", types.String(long)).When(xast.True())))
+			roundTrip(t, "long-annotation", "builder", p, func() string { return fmt.Sprintf("annotation of %d x %q", n, u) })
+			t.Sample(fmt.Sprintf("%d x %q", n, u))
+		},
+	}
+}
+
+// every Unicode scalar value, cheaply: 256 scalars per case, each inside a string value
+// and an entity id (the two escaping routines), so that the quick tier has no gaps
+// between the blocks that the heavier scalar families cover.
+func scalarsLight() *core.Family {
+	const block = 256
+	n := int64(0x110000 / block)
+	return &core.Family{
+		Name: "unicode-all-scalars-light",
+		Desc: "every Unicode scalar value U+0000..U+10FFFF, 256 per case, in a string value and in an entity id (16 scalars per literal)",
+		N:    n,
+		Run: func(t *core.T, i int64) {
+			var elems []*Expr
+			var cur []rune
+			flush := func() {
+				if len(cur) > 0 {
+					elems = append(elems, L(Str(string(cur))), L(Entity("U", string(cur))))
+					cur = nil
+				}
+			}
+			for r := rune(i * block); r < rune((i+1)*block); r++ {
+				if !utf8.ValidRune(r) {
+					continue
+				}
+				cur = append(cur, r)
+				if len(cur) == 16 {
+					flush()
+				}
+			}
+			flush()
+			if len(elems) == 0 {
+				return
+			}
+			checkExpr(t, "scalar-light", SetLit(elems...), false)
+			t.Sample(fmt.Sprintf("U+%04X..U+%04X", i*block, (i+1)*block-1))
+		},
+	}
+}
+
 // every Unicode scalar value in every string position.
 func scalars(lo, hi rune, name string) *core.Family {
 	const block = 256
@@ -517,6 +580,7 @@ func Check() *core.Check {
 			full := gen.Leaves(gen.V)
 			small := gen.Leaves(gen.W)
 			fams := []*core.Family{heads(), containers(), depth1(full, "depth1-values")}
+			fams = append(fams, longLiterals())
 			if tier == "thorough" {
 				fams = append(fams, arithmetic(4))
 			} else {
@@ -526,7 +590,7 @@ func Check() *core.Check {
 				fams = append(fams, depth2(small[:10]), scalars(0, 0x10FFFF, "unicode-all-scalars"))
 			} else {
 				neg := []*Expr{L(Bool(true)), L(Bool(false)), L(Long(-1)), L(Long(1)), Var("principal"), L(Decimal(-1)), L(Set(Long(-1)))}
-				fams = append(fams, depth2(neg), scalars(0, 0x2FFF, "unicode-U+0000-2FFF"), scalars(0xD7F0, 0xE00F, "unicode-surrogate-edge"), scalars(0xFE00, 0x1047F, "unicode-bmp-end-astral-start"), scalars(0xE0000, 0xE01FF, "unicode-tags-variation-selectors"), scalars(0x10FF00, 0x10FFFF, "unicode-last"))
+				fams = append(fams, depth2(neg), scalarsLight(), scalars(0, 0x2FFF, "unicode-U+0000-2FFF"), scalars(0xD7F0, 0xE00F, "unicode-surrogate-edge"), scalars(0xFE00, 0x1047F, "unicode-bmp-end-astral-start"), scalars(0xE0000, 0xE01FF, "unicode-tags-variation-selectors"), scalars(0x10FF00, 0x10FFFF, "unicode-last"))
 			}
 			return fams
 		},
